@@ -111,7 +111,8 @@ Theorem C18_announcement_only_link_addresses : forall s intf v4 p,
                 In x (mi_addrs intf) /\ valid_ip_on_intf a x = true.
 Proof. exact announcement_carries_link_addresses. Qed.
 
-(* goodbyes likewise *)
+(* goodbyes likewise (they are sent only on interfaces where the service is Announced: the
+   model's do_unregister, bd59ecc) *)
 Theorem C18_goodbye_only_link_addresses : forall s intf v4 p,
   goodbye_on s intf v4 = Some p ->
   forall r o, In r (p_answers p) -> r_data r = RAddr o ->
@@ -193,16 +194,15 @@ Theorem C18_history_refuted_selection_while_absent :
   chk_C18 os_w2 (model_history t0 os_w2 h_absent) = false.
 Proof. exact h_absent_refutes. Qed.
 
-(* and the repeated goodbye leaves through whichever interface the IPv4 socket was last pointed
-   at; the model leaves that interface open, and with either interface of the witness the checker
-   rejects the trace (finding C18-goodbye-resend-interface): *)
-Theorem C18_history_refuted_goodbye_resend :
+(* the repeated goodbye (120 ms after unregister) leaves through the interface it was built for
+   (repaired in /repo, 694086c; before, it left wherever the IPv4 socket was last pointed at):
+   the witness history is accepted and its two repetitions leave on interfaces 2 and 3 *)
+Example C18_goodbye_repeat_on_its_interface :
   chk_C18 os_w1 (model_history t0 os_w1 h_goodbye) = true /\
-  chk_C18 os_w1 (history_through 3 (model_history t0 os_w1 h_goodbye)) = false /\
-  chk_C18 os_w1 (history_through 2 (model_history t0 os_w1 h_goodbye)) = false.
-Proof. exact h_goodbye_refutes. Qed.
+  last_ifs (run (initial_state t0 os_w1) h_goodbye) = [2; 3].
+Proof. exact h_goodbye_checked. Qed.
 
-(* C18_history_partial: outside these two classes the history-level statement is established
+(* C18_history_partial: outside this class the history-level statement is established
    through its components above (selection law, interface table after apply / check, subnet
    filter of announcements, goodbyes and responses) and checked by chk_C18 on every trace of
    model and implementation; the induction over whole histories of Model/IntfDaemon.v that would
@@ -238,5 +238,5 @@ Print Assumptions C18_intf_removal_reports_modified.
 Print Assumptions C18_disabled_family_addresses_dropped.
 Print Assumptions C18_record_keeps_first_interface.
 Print Assumptions C18_history_refuted_selection_while_absent.
-Print Assumptions C18_history_refuted_goodbye_resend.
+Print Assumptions C18_goodbye_repeat_on_its_interface.
 Print Assumptions C18_history_example.
